@@ -101,6 +101,7 @@ fn is_quick_point(name: &str) -> bool {
         || name.starts_with("iter.")
         || name.starts_with("compact.")
         || name.starts_with("flush.")
+        || name.starts_with("memtable.")
 }
 
 /// A named scheduling point inside RainDB (hook 2).
